@@ -120,6 +120,24 @@ def cases(tier, seed):
             for code in (27, 22, 16):
                 add([("OffsetCommit", h - 1, "silent-after-heartbeat", 0), ("Heartbeat", h, "error", code)],
                     latency0=rng.random() < 0.5, peers=rng.choice((0, 1, 2)), dense=True)
+    # ... and then REJECTED (the member has meanwhile been superseded): the shutdown of that consumer, which the
+    # rejoin waits for, was itself waiting for this commit
+    for rep in range(2 if tier == "quick" else 10):
+        for h in (2, 3, 4):
+            for code in (22, 25, 16, 7):
+                add([("OffsetCommit", h - 1, "late-error-after-heartbeat", code), ("Heartbeat", h, "error", 27)],
+                    latency0=rng.random() < 0.5, peers=rng.choice((0, 1)), dense=True, client_timeout=3.0)
+    # an unanswered heartbeat times out while the rejoin caused by a rejected commit is being held by the
+    # coordinator; the join then succeeds with the long back-off still armed, and the new generation's first
+    # heartbeat asks for yet another rejoin
+    for rep in range(2 if tier == "quick" else 10):
+        for h in (1, 2, 3):
+            for code in (22, 25):
+                add([("Heartbeat", h, "silent", 0), ("OffsetCommit", h, "error-after-heartbeat", code),
+                     ("JoinGroup", h, "slow-after-heartbeat", 15),
+                     # (the rule above takes heartbeat h out of this rule's count: its h-th is the one after)
+                     ("Heartbeat", h, "error", 27)],
+                    latency0=rng.random() < 0.5, peers=0, dense=True)
     add([("JoinGroup", 0, "silent", 0)], latency0=True, long=True)
     add([("JoinGroup", 1, "silent", 0)], latency0=False, long=True, peers=1)
     core = [s_ for s_ in S if s_[1] in (0, 1) and s_[0] != "processor"]
@@ -185,7 +203,8 @@ def build(spec):
             procs[k % len(procs)] = ["fail"] if kind == "fail" else ["fail_async", spec.get("slowproc", 0.7)]
             m0["procs"] = procs
             continue
-        if kind in ("error-after-heartbeat", "silent-after-heartbeat", "slow-after-heartbeat"):
+        if kind in ("error-after-heartbeat", "silent-after-heartbeat", "slow-after-heartbeat",
+                    "late-error-after-heartbeat"):
             continue  # installed by the monitor when that heartbeat is issued
         act = dict(kind=kind)
         if kind == "late":
@@ -207,6 +226,8 @@ def build(spec):
         if fo.get("leave") is not None:
             sc["events"].append([fo["leave"], "foreign_leave", "zz-foreign-1"])
         sc["events"].sort(key=lambda e: e[0])
+    if spec.get("client_timeout"):
+        sc["timeout"] = spec["client_timeout"]
     sc["horizon"] = 75.0 if spec.get("long") else 60.0
     sc["max_steps"] = 600000
     return sc
@@ -244,7 +265,11 @@ class Mon(object):
                                                                    action=dict(kind="error", code=code)))
                         if kind == "slow-after-heartbeat" and h == self.n_hb - 1:
                             tr.cluster.faults.rules.insert(0, dict(api=api, client_id=b"m0", nth=[0], _seen=0,
-                                                                   action=dict(kind="ok", delay=0.7)))
+                                                                   action=dict(kind="ok", delay=(code / 10.0) if code
+                                                                               else 0.7)))
+                        if kind == "late-error-after-heartbeat" and h == self.n_hb - 1:
+                            tr.cluster.faults.rules.insert(0, dict(api=api, client_id=b"m0", nth=[0], _seen=0,
+                                                                   action=dict(kind="error", code=code, delay=1.6)))
                         if kind == "silent-after-heartbeat" and h == self.n_hb - 1:
                             tr.cluster.faults.rules.insert(0, dict(api=api, client_id=b"m0", nth=[0, 1, 2], _seen=0,
                                                                    action=dict(kind="silent", apply=False)))
